@@ -36,10 +36,14 @@ Definition op_ok_at (D : fs) (K : list kid) (o : op) (p : phase) : Prop :=
                 k_key c = o_key o /\ d_rc d = (if k_live c then None else Some (k_rc c))
   | PExited rc =>
     exists d, lookup (o_key o) D = Some d /\ owned o d /\ d_rc d = Some rc /\ dead_kid K o rc
-  | PChecked => finished D K o (fun _ => True)
-  | PArgs => finished D K o (fun d => fst (o_need o) = true -> d_args d = true)
-  | POpts => finished D K o (fun d => (fst (o_need o) = true -> d_args d = true) /\
-                                      (snd (o_need o) = true -> d_opts d = true))
+  | PArgs rc =>
+    exists d, lookup (o_key o) D = Some d /\ owned o d /\ d_rc d = Some rc /\ dead_kid K o rc /\
+              (fst (o_need o) = true -> d_args d = true)
+  | POpts rc =>
+    exists d, lookup (o_key o) D = Some d /\ owned o d /\ d_rc d = Some rc /\ dead_kid K o rc /\
+              (fst (o_need o) = true -> d_args d = true) /\ (snd (o_need o) = true -> d_opts d = true)
+  | PChecked => finished D K o (fun d => (fst (o_need o) = true -> d_args d = true) /\
+                                         (snd (o_need o) = true -> d_opts d = true))
   | PInserted | PDone | PFailed => True
   end.
 Definition op_ok (D : fs) (K : list kid) (o : op) : Prop := op_ok_at D K o (o_phase o).
